@@ -17,6 +17,7 @@ import (
 	"strings"
 
 	"github.com/containerd/nri/pkg/api"
+	balloonspolicy "github.com/containers/nri-plugins/cmd/plugins/balloons/policy"
 	cfgapi "github.com/containers/nri-plugins/pkg/apis/config/v1alpha1"
 	"github.com/containers/nri-plugins/pkg/kubernetes"
 	libmem "github.com/containers/nri-plugins/pkg/resmgr/lib/memory"
@@ -415,6 +416,48 @@ func resDiff(told, cache res) []string {
 	return d
 }
 
+// taChildSharedSetEmptied recognises the state known finding S16 describes: an exclusive grant held at an inner pool has
+// taken every remaining shared CPU of a descendant pool that still has shared grants. Signatures of later symptoms carry
+// it as their cause class, so that the known finding covers exactly those and nothing else.
+func taChildSharedSetEmptied(s *snap) bool {
+	if s == nil || s.TA == nil {
+		return false
+	}
+	parent := map[string]string{}
+	for _, p := range s.TA.Pools {
+		parent[p.Name] = p.Parent
+	}
+	strictAncestor := func(a, of string) bool {
+		for n := parent[of]; n != ""; n = parent[n] {
+			if n == a {
+				return true
+			}
+		}
+		return false
+	}
+	for _, p := range s.TA.Pools {
+		total := parseSet(p.TotalSharable)
+		if total.IsEmpty() || p.FreeSharableCount > 0 {
+			continue
+		}
+		shared := false
+		for _, g := range s.TA.Grants {
+			if g.Pool == p.Name && g.SharedPortion > 0 {
+				shared = true
+			}
+		}
+		if !shared {
+			continue
+		}
+		for _, g := range s.TA.Grants {
+			if strictAncestor(g.Pool, p.Name) && !parseSet(g.Exclusive).Intersection(total).IsEmpty() {
+				return true
+			}
+		}
+	}
+	return false
+}
+
 func oracleC05(x *exec, v *viols, pre, post *snap, rp *reply) {
 	for _, l := range x.log {
 		f := strings.SplitN(l, "|", 3)
@@ -440,7 +483,13 @@ func oracleC05(x *exec, v *viols, pre, post *snap, rp *reply) {
 			v.add("told-differs-from-cache", "told-differs-from-cache:"+evKind+":"+strings.Fields(d[0])[0], "after %s container %s: %s", rp.ev, c.id(), strings.Join(d, "; "))
 		}
 		if len(cc.Pending) > 0 {
-			v.add("change-left-pending", "change-left-pending:"+evKind+":"+errS, "after %s container %s still has pending changes for %v", rp.ev, c.id(), cc.Pending)
+			sig := "change-left-pending:" + evKind + ":" + errS
+			if evKind == "reconf" && rp.err != nil && taChildSharedSetEmptied(pre) {
+				// the update and its rollback both fail because a grant cannot be reinstated in a pool whose shared set an
+				// ancestor's exclusive grant emptied (S16)
+				sig += ":child-shared-set-emptied-by-ancestor-slice"
+			}
+			v.add("change-left-pending", sig, "after %s container %s still has pending changes for %v", rp.ev, c.id(), cc.Pending)
 		}
 	}
 	if evKind == "create" && rp.err == nil && rp.panic == "" && rp.target != nil {
@@ -699,7 +748,30 @@ func oracleC02(x *exec, v *viols, pre, post *snap, rp *reply) {
 	cfg := x.blConfig()
 	avail := x.availableCPUs()
 	isolated := cpuset.New(x.scn.machine.Model().IsolatedCPUs()...)
-	blns := post.BL.Balloons
+	blns := append([]balloonspolicy.VerifBalloon{}, post.BL.Balloons...)
+	// The reference for a balloon's limits and options is its type in the configuration in force, not what the balloon
+	// object remembers: a balloon that kept a stale definition is itself a violation, and is judged by the configured one.
+	if cfg != nil {
+		for i := range blns {
+			b := &blns[i]
+			for _, d := range cfg.Spec.Config.BalloonDefs {
+				if d.Name != b.Def {
+					continue
+				}
+				hide := d.HideHyperthreads != nil && *d.HideHyperthreads
+				for _, f := range []struct {
+					name      string
+					got, want any
+				}{{"minCPUs", b.MinCpus, d.MinCpus}, {"maxCPUs", b.MaxCpus, d.MaxCpus}, {"minBalloons", b.MinBlns, d.MinBalloons}, {"maxBalloons", b.MaxBlns, d.MaxBalloons},
+					{"cpuClass", b.CpuClass, d.CpuClass}, {"shareIdleCPUsInSame", b.ShareIdle, string(d.ShareIdleCpusInSame)}, {"hideHyperthreads", b.HideHT, hide}} {
+					if fmt.Sprint(f.got) != fmt.Sprint(f.want) {
+						v.add("balloon-def-stale", "balloon-def-stale:"+f.name, "after %s balloon %s remembers %s=%v, the configuration in force gives its type %v", rp.ev, b.Name, f.name, f.got, f.want)
+					}
+				}
+				b.MinCpus, b.MaxCpus, b.MinBlns, b.MaxBlns, b.CpuClass, b.ShareIdle, b.HideHT = d.MinCpus, d.MaxCpus, d.MinBalloons, d.MaxBalloons, d.CpuClass, string(d.ShareIdleCpusInSame), hide
+			}
+		}
+	}
 	inBalloons := cpuset.New()
 	for i, a := range blns {
 		ac := parseSet(a.Cpus)
@@ -1273,8 +1345,10 @@ func twinC13(pd *propDef) func(w *mc.Worker, s *scenario, dir string, trace []st
 		}
 		verifCounters["c13_twin_comparisons"]++
 		v := &viols{prop: "C13", scn: s.name, trace: trace}
-		a, _ := json.Marshal(post)
-		b, _ := json.Marshal(tpost)
+		pc, tc := *post, *tpost
+		pc.KeyOnly, tc.KeyOnly = nil, nil
+		a, _ := json.Marshal(&pc)
+		b, _ := json.Marshal(&tc)
 		labels := []string{}
 		for _, i := range x.rejected {
 			var k int
